@@ -181,21 +181,28 @@ theorem determineWitnessType_spec (v st e best : Nat) :
     determineWitnessType v st e best =
       (if v = 1 ∨ v = 2 then (if st = Gen.C04.stateExpired ∨ e ≤ best then .expiryTaproot else .muSig2Taproot)
        else (if st = Gen.C04.stateExpired ∨ e ≤ best then .expiryWitness else .multiSigWitness)) := by
-  by_cases h1 : v = 1
-  · subst h1
-    by_cases hc : st = Gen.C04.stateExpired ∨ e ≤ best <;>
-    simp [determineWitnessType, determineWitnessTypeWith, Gen.C04.determineWitnessTypeTable, versionMatches,
-        lookupNat, Gen.C04.accountVersionValues, expiredCondText, wtypeByName, hc]
-  by_cases h2 : v = 2
-  · subst h2
-    by_cases hc : st = Gen.C04.stateExpired ∨ e ≤ best <;>
-    simp [determineWitnessType, determineWitnessTypeWith, Gen.C04.determineWitnessTypeTable, versionMatches,
-        lookupNat, Gen.C04.accountVersionValues, expiredCondText, wtypeByName, hc]
-  · have h1' : ¬ 1 = v := fun h => h1 h.symm
-    have h2' : ¬ 2 = v := fun h => h2 h.symm
-    by_cases hc : st = Gen.C04.stateExpired ∨ e ≤ best <;>
-    simp [determineWitnessType, determineWitnessTypeWith, Gen.C04.determineWitnessTypeTable, versionMatches,
-        lookupNat, Gen.C04.accountVersionValues, expiredCondText, wtypeByName, hc, h1, h2, h1', h2']
+  have hv : v = 1 ∨ v = 2 ∨ (v ≠ 1 ∧ v ≠ 2) := by omega
+  have hs : st = 4 ∨ st ≠ 4 := by omega
+  have hr : best < e ∨ best = e ∨ e < best := by omega
+  rcases hv with rfl | rfl | ⟨h1, h2⟩ <;> rcases hs with rfl | h4 <;> rcases hr with hr | hr | hr
+  all_goals
+    first
+    | (have hle : ¬ e ≤ best := by omega
+       have hne : ¬ best = e := by omega
+       simp [determineWitnessType, Gen.C04.dwtVersionSpecial, Gen.C04.dwtVersionOther, Gen.C04.dwtStateSpecial,
+         Gen.C04.dwtStateOther, Gen.C04.dwtTable, wtypeByName, Gen.C04.stateExpired, hr, hle, hne, *])
+    | (have hle : e ≤ best := by omega
+       have hlt : ¬ best < e := by omega
+       have hne : ¬ best = e := by omega
+       simp [determineWitnessType, Gen.C04.dwtVersionSpecial, Gen.C04.dwtVersionOther, Gen.C04.dwtStateSpecial,
+         Gen.C04.dwtStateOther, Gen.C04.dwtTable, wtypeByName, Gen.C04.stateExpired, hle, hlt, hne, *])
+    | (have hle : e ≤ best := by omega
+       have hlt : ¬ best < e := by omega
+       simp [determineWitnessType, Gen.C04.dwtVersionSpecial, Gen.C04.dwtVersionOther, Gen.C04.dwtStateSpecial,
+         Gen.C04.dwtStateOther, Gen.C04.dwtTable, wtypeByName, Gen.C04.stateExpired, hr, hle, hlt, *])
+
+/-- the decision table was obtained from code in which expiry and best height are only compared -/
+theorem determineWitnessType_comparison_only : Gen.C04.dwtNoArith = true := by decide
 
 /-- **C04, lock-time choice.**  With `wt = determineWitnessType(account, bestHeight)`:
 * `wt` is an expiry type exactly when `State == StateExpired ∨ bestHeight ≥ expiry`;
@@ -219,13 +226,13 @@ theorem C04_locktime_choice (v st e best : Nat) (hb : best < LockTimeThreshold) 
   simp only [determineWitnessType_spec]
   refine ⟨?_, ?_, ?_, hseq, hcl⟩
   · by_cases hv : v = 1 ∨ v = 2 <;> by_cases hc : st = Gen.C04.stateExpired ∨ e ≤ best <;>
-      simp [hv, hc, wtypeIsExpiry, Gen.C04.witnessTypeIsExpiryTable, wtypeByName]
+      simp [hv, hc, wtypeIsExpiry, Gen.C04.witnessTypeIsExpiryTable, wtypeByName, WType.name]
   · by_cases hv : v = 1 ∨ v = 2 <;> by_cases hc : st = Gen.C04.stateExpired ∨ e ≤ best <;>
       simp [hv, hc, wtypeIsExpiry, Gen.C04.witnessTypeIsExpiryTable, wtypeByName, spendLockTime,
-        spendLockTimeWith, Gen.C04.spendAccountLockTimeTable]
+        WType.name, Gen.C04.spendAccountLockTimeTable]
   · by_cases hv : v = 1 ∨ v = 2 <;> by_cases hc : st = Gen.C04.stateExpired ∨ e ≤ best <;>
       simp [hv, hc, wtypeIsExpiry, Gen.C04.witnessTypeIsExpiryTable, wtypeByName, spendLockTime,
-        spendLockTimeWith, Gen.C04.spendAccountLockTimeTable]
+        WType.name, Gen.C04.spendAccountLockTimeTable]
 
 /-- **The stated corner**: an account marked `StateExpired` whose expiry is above the best height handed to
 `determineWitnessType` takes the expiry path with `LockTime = bestHeight < expiry`, which the script rejects. -/
@@ -234,10 +241,10 @@ theorem C04_locktime_expired_state_corner (v e best : Nat) (hlt : best < e) :
     wtypeIsExpiry wt = true ∧ spendLockTime wt true best = some best ∧ ¬ CLTV best 0 e := by
   simp only [determineWitnessType_spec]
   refine ⟨?_, ?_, ?_⟩
-  · by_cases hv : v = 1 ∨ v = 2 <;> simp [hv, wtypeIsExpiry, Gen.C04.witnessTypeIsExpiryTable, wtypeByName]
+  · by_cases hv : v = 1 ∨ v = 2 <;> simp [hv, wtypeIsExpiry, Gen.C04.witnessTypeIsExpiryTable, wtypeByName, WType.name]
   · by_cases hv : v = 1 ∨ v = 2 <;>
       simp [hv, wtypeIsExpiry, Gen.C04.witnessTypeIsExpiryTable, wtypeByName, spendLockTime,
-        spendLockTimeWith, Gen.C04.spendAccountLockTimeTable]
+        WType.name, Gen.C04.spendAccountLockTimeTable]
   · intro h; have := h.2.1; omega
 
 example : determineWitnessType 1 3 100 100 = .expiryTaproot ∧ determineWitnessType 0 3 100 99 = .multiSigWitness ∧
@@ -251,16 +258,19 @@ theorem C04_renew_cooperative (v best : Nat) :
     wtypeIsExpiry (renewWitnessType v) = false ∧
     spendLockTime (renewWitnessType v) false best = some 0 ∧
     (renewWitnessType v = .muSig2Taproot ↔ 1 ≤ v) ∧ (renewWitnessType v = .multiSigWitness ↔ v = 0) := by
-  by_cases hv : 1 ≤ v
-  · have h0 : v ≠ 0 := by omega
-    simp [renewWitnessType, Gen.C04.renewWitnessTypeRule, lookupNat, Gen.C04.accountVersionValues, wtypeByName, hv,
-      h0, wtypeIsExpiry, Gen.C04.witnessTypeIsExpiryTable, spendLockTime, spendLockTimeWith,
-      Gen.C04.spendAccountLockTimeTable]
-  · have h0 : v = 0 := by omega
-    subst h0
-    simp [renewWitnessType, Gen.C04.renewWitnessTypeRule, lookupNat, Gen.C04.accountVersionValues, wtypeByName,
-      wtypeIsExpiry, Gen.C04.witnessTypeIsExpiryTable, spendLockTime, spendLockTimeWith,
-      Gen.C04.spendAccountLockTimeTable]
+  have hv : v = 0 ∨ v = 1 ∨ v = 2 ∨ 3 ≤ v := by omega
+  rcases hv with rfl | rfl | rfl | h3
+  · simp [renewWitnessType, Gen.C04.renewWitnessTypeTable, wtypeByName, wtypeIsExpiry,
+      Gen.C04.witnessTypeIsExpiryTable, spendLockTime, WType.name, Gen.C04.spendAccountLockTimeTable]
+  · simp [renewWitnessType, Gen.C04.renewWitnessTypeTable, wtypeByName, wtypeIsExpiry,
+      Gen.C04.witnessTypeIsExpiryTable, spendLockTime, WType.name, Gen.C04.spendAccountLockTimeTable]
+  · simp [renewWitnessType, Gen.C04.renewWitnessTypeTable, wtypeByName, wtypeIsExpiry,
+      Gen.C04.witnessTypeIsExpiryTable, spendLockTime, WType.name, Gen.C04.spendAccountLockTimeTable]
+  · have hm : min v 3 = 3 := by omega
+    have h0 : v ≠ 0 := by omega
+    have h1 : 1 ≤ v := by omega
+    simp [renewWitnessType, Gen.C04.renewWitnessTypeTable, wtypeByName, wtypeIsExpiry, hm, h0, h1,
+      Gen.C04.witnessTypeIsExpiryTable, spendLockTime, WType.name, Gen.C04.spendAccountLockTimeTable]
 
 /-- which rule each account-spending manager method uses (regenerated): Close / Deposit / Withdraw follow
 `determineWitnessType`, Renew its own cooperative rule; modifications (not CLOSE) on an expiry type are refused -/
@@ -274,11 +284,11 @@ theorem C04_manager_witness_types (v st e best : Nat) :
   refine ⟨by simp [managerWitnessType, lookupStr, Gen.C04.spendWitnessTypeSource],
     by simp [managerWitnessType, lookupStr, Gen.C04.spendWitnessTypeSource],
     by simp [managerWitnessType, lookupStr, Gen.C04.spendWitnessTypeSource],
-    by simp [managerWitnessType, lookupStr, Gen.C04.spendWitnessTypeSource, Gen.C04.renewWitnessTypeRule], ?_⟩
+    by simp [managerWitnessType, lookupStr, Gen.C04.spendWitnessTypeSource], ?_⟩
   simp only [determineWitnessType_spec]
   by_cases hv : v = 1 ∨ v = 2 <;> by_cases hc : st = Gen.C04.stateExpired ∨ e ≤ best <;>
     simp [hv, hc, wtypeIsExpiry, Gen.C04.witnessTypeIsExpiryTable, wtypeByName, spendLockTime,
-      spendLockTimeWith, Gen.C04.spendAccountLockTimeTable]
+      WType.name, Gen.C04.spendAccountLockTimeTable]
 
 example : renewWitnessType 0 = .multiSigWitness ∧ renewWitnessType 2 = .muSig2Taproot ∧
     managerWitnessType "WithdrawAccount" 1 3 100 100 = some .expiryTaproot := by decide
@@ -301,7 +311,7 @@ theorem C04_stored_record_is_verified_output (d : DiffIn) (a : AcctRec) :
         version := if d.supportsUpg && decide (d.newVersion > a.version) then d.newVersion else a.version
         batchInc := a.batchInc + 1 } := by
   cases he : (d.supportsExt && d.newExpiry != 0) <;> cases hu : (d.supportsUpg && decide (d.newVersion > a.version)) <;>
-    simp [storedAfterBatch, storedAfterBatchWith, Gen.C04.storerModifiers, recreatedCase, diffCondHolds,
+    simp [storedAfterBatch, storedAfterBatchWith, Gen.C04.storerModifiers, diffCondHolds,
       applyModifier, Gen.C04.modifierBodies, applyStmts, applyModifierStmt, diffArg, verifiedOutputParams,
       verifiedWith, Gen.C04.verifierAccountUpdates, he, hu]
 
